@@ -161,7 +161,10 @@ def replay_contract(cfg_dir, ir_dir, entry):
   # analyzer bit(i, j) set <=> CFG edge j -> i (ConnectTo registers edges backwards)
   edges = [[j, i] for i in range(n) for j in range(n)
            if i != j and (m[i][j // 64] >> (j % 64)) & 1]
-  edges.append([entry["dst"], entry["src"]])
+  if entry["ob"] == "add_connection":
+    edges.append([entry["dst"], entry["src"]])
+  if not edges:
+    edges = [[0, 0]]   # a self-edge: no change of reachability, but the queries run
   return replay_history(cfg_dir, n, edges)
 
 
@@ -217,7 +220,7 @@ def main(tier):
         w = None
         if v["ob"] == "history" and "edges" in v:
           w = replay_history(cfg_dir, v["n"], [list(e) for e in v["edges"]])
-        elif v["ob"] == "add_connection":
+        elif v["ob"] in ("add_connection", "is_reachable") and "matrix" in v:
           w = replay_contract(cfg_dir, ir_dir, v)
         if w:
           v["witness"] = w
@@ -265,7 +268,7 @@ def main(tier):
     if witness is None and not reproduced:
       if v["ob"] == "history" and "edges" in v:
         witness = replay_history(cfg_dir, v["n"], [list(e) for e in v["edges"]])
-      elif v["ob"] == "add_connection":
+      elif v["ob"] in ("add_connection", "is_reachable") and "matrix" in v:
         witness = replay_contract(cfg_dir, ir_dir, v)
     if witness:
       reproduced += 1
